@@ -205,6 +205,13 @@ def decOp (s : String) : Option (Op × List String) :=
   | ["rmgapsites", f, e] => do
     let (x, y) ← frac f
     pure (.rmGapSites x y (decBool e), [])
+  | ["rmcharsites", cs, f, e, ic, ig, iN, rv] => do
+    let (x, y) ← frac f
+    let set := if cs == "_" then [] else bytesOfString (pctDec cs)
+    pure (.rmCharSites set x y (decBool e) (decBool ic) (decBool ig) (decBool iN) (decBool rv), [])
+  | ["rmmajsites", f, e, ig, iN] => do
+    let (x, y) ← frac f
+    pure (.rmMajSites x y (decBool e) (decBool ig) (decBool iN), [])
   | ["replacechar", n, i, c] => do
     let x ← parseInt? i; let ch ← (bytesOfString c).head?
     pure (.replaceChar (pctDec n) x ch, [])
